@@ -416,3 +416,9 @@ def r6(ctx, R):
     for meth in ('integrate', 'update_nodes', 'compute_end_point'):
         for rel, cn in c02._impls(ctx.repo, fams, meth):
             c02._check_sig(R, ctx.repo, rel, cn, meth, spec)
+
+
+@rule('C01', 'C01.R7', 'the number of time-parallel steps never changes the answer: what run() returns / carries to the next block is uend of the last ACTIVE step (value chain of run(), shared with C06.R1)', floor=12)
+def r7(ctx, R):
+    from . import c06
+    c06.r1(ctx, R)
